@@ -8,7 +8,8 @@ LEAN = VERIF / "lean"
 HARNESS = VERIF / "harness"
 CACHE = VERIF / ".cache"
 REPO = Path("/repo")
-TARGET = CACHE / "target"
+# VERIF_TARGET: alternative cargo target dir (used when trying seeded changes, so that the regular binary stays pristine)
+TARGET = Path(os.environ.get("VERIF_TARGET") or (CACHE / "target"))
 HARNESS_BIN = TARGET / "debug" / "tarpc-verif-harness"
 DRIVER_BIN = LEAN / ".lake" / "build" / "bin" / "driver"
 ALLOWED_AXIOMS = {"propext", "Classical.choice", "Quot.sound"}
@@ -21,7 +22,7 @@ TRUSTED_BASE = [
     "harness/ (Rust correspondence harness) and ./check (this orchestrator): trusted to report disagreements",
     "library semantics modelled, not verified: tokio mpsc/oneshot, tokio-util DelayQueue, futures Abortable/Fuse, serde derive schema, bincode, serde_json, LengthDelimitedCodec, rustc",
 ]
-ENV = dict(os.environ, CARGO_NET_OFFLINE="true", CARGO_TERM_COLOR="never")
+ENV = dict(os.environ, CARGO_NET_OFFLINE="true", CARGO_TERM_COLOR="never", CARGO_TARGET_DIR=str(TARGET))
 
 
 class Lock:
@@ -201,8 +202,9 @@ def write_evidence(prop, tier, seed, coverage, assumptions, wall_s, violations, 
     }
     if extra:
         ev.update(extra)
-    (VERIF / "evidence").mkdir(exist_ok=True)
-    (VERIF / "evidence" / f"{prop}.json").write_text(json.dumps(ev, indent=1, sort_keys=True) + "\n")
+    evdir = Path(os.environ.get("VERIF_EVIDENCE_DIR") or (VERIF / "evidence"))   # redirected when trying seeded changes
+    evdir.mkdir(parents=True, exist_ok=True)
+    (evdir / f"{prop}.json").write_text(json.dumps(ev, indent=1, sort_keys=True) + "\n")
     return ev
 
 
